@@ -237,3 +237,31 @@ def dot_args(node):
     if isinstance(node, ast.BinOp) and isinstance(node.op, ast.MatMult):
         return node.left, node.right
     return None
+
+
+import re as _re
+import copy as _copy
+_CONV = _re.compile(r"(_in_|[A-Za-z0-9]2[A-Za-z]|\d$|12|21|squared|_sq)")
+
+
+def stable_text(node, func_node, module_names=()):
+    """ast.unparse of node with every renamable local name replaced by `_`: locals that are assigned in the function, are not
+    parameters, and do not carry a naming convention (x2y, *_in_x, *1/*2/*12/*21, *squared).  Keys built from this text do not
+    change when a local variable is renamed."""
+    params = set()
+    if func_node is not None and hasattr(func_node, "args"):
+        a = func_node.args
+        params = {x.arg for x in a.posonlyargs + a.args + a.kwonlyargs}
+    stored = set()
+    if func_node is not None:
+        for n in ast.walk(func_node):
+            if isinstance(n, ast.Name) and isinstance(n.ctx, ast.Store):
+                stored.add(n.id)
+    ren = {x for x in stored if x not in params and x not in module_names and not _CONV.search(x)}
+    if not ren:
+        return ast.unparse(node)
+    c = _copy.deepcopy(node)
+    for n in ast.walk(c):
+        if isinstance(n, ast.Name) and n.id in ren:
+            n.id = "_"
+    return ast.unparse(c)
